@@ -100,6 +100,28 @@ Theorem C21_failed_from_buffer_is_pure : forall s src tag, step s (OFromBufferFa
 Proof. exact failed_from_buffer_is_pure. Qed.
 Print Assumptions C21_failed_from_buffer_is_pure.
 
+(* ffi.new whose initializer is rejected AFTER the memory was obtained (too many items, wrong
+   element type, unknown field, out-of-range integer): direct_newp releases the freshly made cdata
+   on that error path (regenerated fact Gen.gen_newp_fail_decref).  Through a custom allocator
+   this means: the block's free function runs exactly once, the wrapper and the block obtained
+   from alloc() are dead afterwards, and nothing else in the table changes.  With the default
+   allocator the table is not touched at all. *)
+Theorem C21_failed_alloc_new_frees : forall ops a1 a2,
+  let s := run ops in
+  addr_free s a1 = true -> addr_free s a2 = true -> a1 <> a2 ->
+  let n := next s in
+  let s' := step s (OAllocNewFail a1 a2 true) in
+  next s' = S (S n) /\
+  alive (get s' n) = false /\ alive (get s' (S n)) = false /\
+  calls (get s' (S n)) = 1 /\ had (get s' (S n)) = true /\
+  (forall j, j < n -> get s' j = get s j).
+Proof. exact failed_alloc_new_frees. Qed.
+Print Assumptions C21_failed_alloc_new_frees.
+
+Theorem C21_failed_new_is_pure : forall s, step s ONewFail = s.
+Proof. exact failed_new_is_pure. Qed.
+Print Assumptions C21_failed_new_is_pure.
+
 (* ffi.new("struct *"): while p is alive or p[0] is held, the struct object is alive (its memory
    is part of it); with a custom allocator, as long as it was not explicitly released, free has
    not been called and the allocation is alive *)
